@@ -266,6 +266,10 @@ class Exprs:
             return mk_bin("Eq", mk_deref(args[0]), mk_deref(args[1]))
         if callee.endswith("as std::cmp::PartialEq>::ne") and len(args) == 2:
             return mk_bin("Ne", mk_deref(args[0]), mk_deref(args[1]))
+        if len(args) == 2 and (callee.endswith("PartialEq<&B> for &A>::eq") or callee.endswith("PartialEq for str>::eq")):
+            return mk_bin("Eq", strip_refs(args[0]), strip_refs(args[1]))
+        if len(args) == 2 and (callee.endswith("PartialEq<&B> for &A>::ne") or callee.endswith("PartialEq for str>::ne")):
+            return mk_bin("Ne", strip_refs(args[0]), strip_refs(args[1]))
         if callee == "<board::Square as std::convert::From<board::Piece>>::from":
             return ("agg", "board::Square", "Full", args)
         if t.get("callee") == "std::convert::Into::into" and callee.endswith("::into"):
